@@ -38,7 +38,7 @@ def bcar_for(order, r):
 
 
 # ------------------------------------------------------------------ spline family: build-centred properties
-def spline_build_execs(ctx, r, nrep, tdom="W", with_knots=True, with_energy=True, pair=True, dims=range(1, 11), ns=range(1, 11)):
+def spline_build_execs(ctx, r, nrep, tdom="W", with_knots=True, with_energy=True, pair=True, dims=range(1, 11), ns=range(1, 11), big=True):
     """structure-exhaustive: every order x dimension x N, both constructors and both update overloads"""
     hows = ["ctor_durs", "ctor_pts", "upd_durs", "upd_pts"]
     other = {"ctor_durs": "upd_pts", "ctor_pts": "upd_durs", "upd_durs": "ctor_pts", "upd_pts": "ctor_durs"}
@@ -63,6 +63,29 @@ def spline_build_execs(ctx, r, nrep, tdom="W", with_knots=True, with_energy=True
                         cmds.append({"op": "note", "what": "same", "a": 1, "b": 2})
                     s = (order + 1) // 2
                     execs.append((n * dim * s * (2 if pair else 1) + 5, cmds))
+    # long splines (beyond the sizes of the exact dense solve): judged by the exact residuals of the defining equations, exact energy and
+    # bookkeeping; sizes around powers of two and the lookup threshold 32
+    if big:
+        bigns = (12, 16, 31, 32, 33, 64, 100, 257)
+        for rep in range(nrep):
+            for order in gen.ORDERS:
+                for dim in (1, 2, 3, 4, 5, 8):
+                    for j in range(3 if ctx.quick() else 8):
+                        k += 1
+                        n = bigns[(k + rep) % len(bigns)]
+                        pr = r.problem(order, dim, n, tdom=tdom)
+                        how = hows[(k + rep) % 4]
+                        ar = bcar_for(order, r)
+                        cmds = [{"op": "reset"}, gen.build_cmd(1, pr, how, ar)]
+                        if with_knots:
+                            cmds.append({"op": "knots", "obj": 1})
+                        if with_energy:
+                            cmds.append({"op": "energy", "obj": 1})
+                        cmds.append({"op": "state", "obj": 1})
+                        if pair:
+                            cmds.append(gen.build_cmd(2, pr, other[how], ar))
+                            cmds.append({"op": "note", "what": "same", "a": 1, "b": 2})
+                        execs.append((n * dim * ((order + 1) // 2) * (2 if pair else 1) + 5, cmds))
     return execs
 
 
@@ -146,7 +169,7 @@ def repo_test_traces(ctx, tests, first=40, every=2000):
 
 def plan_C01(ctx):
     return plan_spline_build(ctx, {"C01"}, {}, 1, 12,
-                             rule="every order x dimension 1..10 x N 1..10, the four construction/update overloads cycled, "
+                             rule="every order x dimension 1..10 x N 1..10 plus long splines (N in {12,16,31,32,33,64,100,257}, dimensions {1,2,3,4,5,8}), the four construction/update overloads cycled, "
                                   "boundary-condition constructor arity varied, data classes grid/real/2^40-scaled, start-time classes; "
                                   "one execution = build + knot evaluations (global and per-segment routes) + paired build through the "
                                   "other time overload + comparison; non-trivial = distinct (order,dim,N,overload,data) executions validated")
